@@ -355,7 +355,16 @@ theorem revoke_safe (g : Tgt) (st0 : Bool) (s : St) (k : Nat) (byCert : Bool) (o
       · simp at hst
       · simp only at hst
         split at hst
-        · exact (hpre st hst).1
+        · split at hst
+          · exact (hpre st hst).1
+          · simp only [List.mem_append] at hst
+            rcases hst with h | h
+            · exact (hpre st h).1
+            · have h2 := inv_steps g st0 s.log s.now _ s (Nat.le_refl _) hi (fun e he => Or.inl he)
+                (fun st h => (hpre st h).1)
+              have hnow := now_steps_eq _ s (fun st h => (hpre st h).2)
+              refine rebuild_safe g s.now _ false o1 o2 h2.1.1 (fun hn => ?_) st h
+              exact (h2.1.2 (by rw [hnow]; exact hn)).1
         · rename_i hnone
           have hrec : ∀ st ∈ revokePre s k byCert ++ [Step.putRevoked k (s.stamps + 1)],
               Safe g s.now st ∧ isTick st = false := by
@@ -458,7 +467,8 @@ theorem inv_run (g : Tgt) (st0 : Bool) (base : List Ev) (h : List Run) :
 /-- shape of a revoke that answers success -/
 theorem revokeProg_revoked (s : St) (k : Nat) (b : Bool) (o1 o2 : List Nat) (t : Nat)
     (h : (revokeProg s k b o1 o2).2 = .revoked t) :
-    (s.revoked.lookup k = some t ∧ (revokeProg s k b o1 o2).1 = revokePre s k b) ∨
+    (s.revoked.lookup k = some t ∧ (revokeProg s k b o1 o2).1 = revokePre s k b ++
+        (if s.cfg.autoRebuild then [] else rebuildSteps (applySteps s (revokePre s k b)) false o1 o2)) ∨
     (s.revoked.lookup k = none ∧ t = s.stamps + 1 ∧
       (revokeProg s k b o1 o2).1 = (revokePre s k b ++ [Step.putRevoked k t]) ++
         (if s.cfg.autoRebuild then [] else rebuildSteps (applySteps s (revokePre s k b ++ [Step.putRevoked k t])) false o1 o2)) := by
@@ -479,9 +489,14 @@ theorem revokeProg_revoked (s : St) (k : Nat) (b : Bool) (o1 o2 : List Nat) (t :
         cases hl : s.revoked.lookup k with
         | some t' =>
           simp only [hl] at h ⊢
-          simp only [Res.revoked.injEq] at h
-          subst h
-          left; simp
+          left
+          split
+          · rename_i h4
+            simp only [h4, ↓reduceIte, Res.revoked.injEq] at h
+            subst h; simp
+          · rename_i h4
+            simp only [h4, Bool.false_eq_true, ↓reduceIte, Res.revoked.injEq] at h
+            subst h; simp
         | none =>
           simp only [hl] at h ⊢
           split
@@ -603,7 +618,12 @@ theorem prog_keeps (k' t' : Nat) (s : St) (o1 o2 : List Nat) (op : Op) (hl : s.r
           have hpre : ∀ st ∈ revokePre s k byCert, Keeps k' t' st := by
             intro st h; rw [revokePre_kind s k byCert st h]; trivial
           split at hst
-          · exact hpre st hst
+          · split at hst
+            · exact hpre st hst
+            · simp only [List.mem_append] at hst
+              rcases hst with h | h
+              · exact hpre st h
+              · exact rebuild_keeps k' t' _ _ _ _ st h
           · rename_i hnone
             have hrec : ∀ st ∈ revokePre s k byCert ++ [Step.putRevoked k (s.stamps + 1)], Keeps k' t' st := by
               intro st h
@@ -759,5 +779,82 @@ theorem pre_state (s : St) (k : Nat) (b : Bool) :
     s1.certs = s.certs ∧ s1.issuers = s.issuers ∧ s1.cfg = s.cfg ∧ s1.revoked = s.revoked := by
   unfold revokePre
   split <;> simp [applySteps, applyStep]
+
+theorem frameRevoked_steps (l : List Step) : ∀ s, (∀ st ∈ l, frameRevoked st = true) →
+    (applySteps s l).revoked = s.revoked ∧ (applySteps s l).certs = s.certs := by
+  induction l with
+  | nil => intro s _; exact ⟨rfl, rfl⟩
+  | cons a l ih =>
+    intro s h
+    obtain ⟨a1, a2⟩ := frameRevoked_step s a (h a (List.mem_cons_self ..))
+    obtain ⟨b1, b2⟩ := ih (applyStep s a) (fun st hst => h st (List.mem_cons_of_mem _ hst))
+    rw [applySteps_cons]
+    exact ⟨b1.trans a1, b2.trans a2⟩
+
+/-- writes that leave the certificate table, the issuers and the CRL configuration alone -/
+def frameCI : Step → Bool
+  | .addCert .. => false
+  | .addIssuer _ => false
+  | .delIssuer _ => false
+  | .putCfg _ => false
+  | _ => true
+
+theorem frameCI_step (s : St) (st : Step) (h : frameCI st = true) :
+    (applyStep s st).certs = s.certs ∧ (applyStep s st).issuers = s.issuers ∧ (applyStep s st).cfg = s.cfg := by
+  cases st <;> simp_all [applyStep, frameCI]
+
+theorem frameCI_steps (l : List Step) : ∀ s, (∀ st ∈ l, frameCI st = true) →
+    (applySteps s l).certs = s.certs ∧ (applySteps s l).issuers = s.issuers ∧ (applySteps s l).cfg = s.cfg := by
+  induction l with
+  | nil => intro s _; exact ⟨rfl, rfl, rfl⟩
+  | cons a l ih =>
+    intro s h
+    obtain ⟨a1, a2, a3⟩ := frameCI_step s a (h a (List.mem_cons_self ..))
+    obtain ⟨b1, b2, b3⟩ := ih (applyStep s a) (fun st hst => h st (List.mem_cons_of_mem _ hst))
+    rw [applySteps_cons]
+    exact ⟨b1.trans a1, b2.trans a2, b3.trans a3⟩
+
+theorem rebuild_frameCI (s : St) (f : Bool) (o1 o2 : List Nat) : ∀ st ∈ rebuildSteps s f o1 o2, frameCI st = true := by
+  intro st h
+  rcases rebuild_kind s f o1 o2 st h with ⟨_, _, _, _, rfl⟩ | ⟨_, rfl⟩ | ⟨_, rfl⟩ | ⟨_, rfl⟩ | ⟨_, _, rfl⟩ <;> rfl
+
+/-- every write of a revoke is: the presented certificate, the revocation record, or a write of a CRL rebuild -/
+theorem revoke_step_kind (s : St) (k : Nat) (b : Bool) (o1 o2 : List Nat) (st : Step)
+    (h : st ∈ (revokeProg s k b o1 o2).1) :
+    st = .putCert k ∨ st = .putRevoked k (s.stamps + 1) ∨ ∃ s' f, st ∈ rebuildSteps s' f o1 o2 := by
+  have hpre := revokePre_kind s k b
+  unfold revokeProg at h
+  split at h
+  · simp at h
+  · split at h
+    · simp at h
+    · split at h
+      · simp at h
+      · simp only at h
+        split at h
+        · split at h
+          · exact Or.inl (hpre st h)
+          · rcases List.mem_append.mp h with h | h
+            · exact Or.inl (hpre st h)
+            · exact Or.inr (Or.inr ⟨_, _, h⟩)
+        · split at h
+          · exact Or.inl (hpre st h)
+          · split at h
+            · rcases List.mem_append.mp h with h | h
+              · exact Or.inl (hpre st h)
+              · simp only [List.mem_singleton] at h; exact Or.inr (Or.inl h)
+            · rcases List.mem_append.mp h with h | h
+              · rcases List.mem_append.mp h with h | h
+                · exact Or.inl (hpre st h)
+                · simp only [List.mem_singleton] at h; exact Or.inr (Or.inl h)
+              · exact Or.inr (Or.inr ⟨_, _, h⟩)
+
+theorem revoke_frameCI (s : St) (k : Nat) (b : Bool) (o1 o2 : List Nat) :
+    ∀ st ∈ (revokeProg s k b o1 o2).1, frameCI st = true := by
+  intro st h
+  rcases revoke_step_kind s k b o1 o2 st h with rfl | rfl | ⟨s', f, h⟩
+  · rfl
+  · rfl
+  · exact rebuild_frameCI s' f o1 o2 st h
 
 end Obao.PKIRevoke
